@@ -4,11 +4,23 @@ open Py Lean
 namespace Driver.D_es_referenciacatastral
 def handle (fn : String) (args : List Json) : String :=
   match fn with
+  | "_check_digit" => match args with
+    | [a0] => (do let x0 ← Wire.decStr a0; pure (Wire.respondWith Wire.encStr (Gen.es_referenciacatastral._check_digit x0)) : Option String).getD "badargs"
+    | _ => "badargs"
+  | "calc_check_digits" => match args with
+    | [a0] => (do let x0 ← Wire.decStr a0; pure (Wire.respondWith Wire.encStr (Gen.es_referenciacatastral.calc_check_digits x0)) : Option String).getD "badargs"
+    | _ => "badargs"
   | "compact" => match args with
     | [a0] => (do let x0 ← Wire.decStr a0; pure (Wire.respondWith Wire.encStr (Gen.es_referenciacatastral.compact x0)) : Option String).getD "badargs"
     | _ => "badargs"
   | "format" => match args with
     | [a0] => (do let x0 ← Wire.decStr a0; pure (Wire.respondWith Wire.encStr (Gen.es_referenciacatastral.format x0)) : Option String).getD "badargs"
+    | _ => "badargs"
+  | "is_valid" => match args with
+    | [a0] => (do let x0 ← Wire.decStr a0; pure (Wire.respondWith Wire.encBool (Gen.es_referenciacatastral.is_valid x0)) : Option String).getD "badargs"
+    | _ => "badargs"
+  | "validate" => match args with
+    | [a0] => (do let x0 ← Wire.decStr a0; pure (Wire.respondWith Wire.encStr (Gen.es_referenciacatastral.validate x0)) : Option String).getD "badargs"
     | _ => "badargs"
   | _ => "nofunc"
 end Driver.D_es_referenciacatastral
